@@ -379,6 +379,71 @@ impl World {
 }
 
 /// Execute one behaviour (a list of schedule steps) and return its trace lines.
+/// One Observe event: the replica's committed state, the counters, the per-task operation
+/// history and the dependency map as `Replica::dependency_map(false)` hands it out (the cached
+/// one when there is a cache: it must reflect the stored tasks at all times, C19).
+async fn observe_event(w: &mut World, i: usize, b: &Value) {
+    let st = w.observe(i).await;
+    let post = w.db_json(&st);
+    let rid = w.nodes[i].rid.clone();
+    let rep = w.nodes[i].rep.as_mut().unwrap();
+    let nlocal = rep.num_local_operations().await.unwrap_or(usize::MAX);
+    let nundo = rep.num_undo_points().await.unwrap_or(usize::MAX);
+    // the per-task operation history (synchronised and unsynchronised), for every task token
+    let mut taskops = vec![];
+    let mut toks: Vec<String> = vec![];
+    if let Some(tasks) = b["tasks"].as_array() {
+        for t in tasks {
+            let tok = t.as_str().unwrap();
+            toks.push(tok.to_string());
+            let u = w.ctx.borrow().model.task(tok);
+            let rep = w.nodes[i].rep.as_mut().unwrap();
+            if let Ok(ops) = rep.get_task_operations(u).await {
+                let oj: Vec<Value> = ops
+                    .iter()
+                    .map(|o| w.ctx.borrow_mut().model.op_to_json(o))
+                    .collect();
+                taskops.push(json!([tok, oj]));
+            }
+        }
+    }
+    // dependency map: pairs [task, the task it depends on], and the synthetic BLOCKED / BLOCKING
+    // tags of every task as get_task computes them from that map
+    let mut dm: Vec<Value> = vec![];
+    let mut blocked: Vec<String> = vec![];
+    let mut blocking: Vec<String> = vec![];
+    let mut dm_ok = true;
+    {
+        let rep = w.nodes[i].rep.as_mut().unwrap();
+        match rep.dependency_map(false).await {
+            Ok(map) => {
+                for tok in &toks {
+                    let u = w.ctx.borrow().model.task(tok);
+                    for d in map.dependencies(u) {
+                        let dt = w.ctx.borrow().model.task_tok(d);
+                        dm.push(json!([tok, dt]));
+                    }
+                }
+            }
+            Err(_) => dm_ok = false,
+        }
+        for tok in &toks {
+            let u = w.ctx.borrow().model.task(tok);
+            let rep = w.nodes[i].rep.as_mut().unwrap();
+            if let Ok(Some(t)) = rep.get_task(u).await {
+                if t.is_blocked() {
+                    blocked.push(tok.clone());
+                }
+                if t.is_blocking() {
+                    blocking.push(tok.clone());
+                }
+            }
+        }
+    }
+    w.emit(json!({"a":"Observe","r":rid,"post":post,"nlocal":nlocal,"nundo":nundo,
+        "taskops":taskops,"dm":dm,"dm_ok":dm_ok,"blocked":blocked,"blocking":blocking}));
+}
+
 pub async fn run_behaviour(b: &Value, dir: Option<PathBuf>) -> Vec<Value> {
     let replicas: Vec<String> = b["replicas"]
         .as_array()
@@ -563,36 +628,19 @@ pub async fn run_behaviour(b: &Value, dir: Option<PathBuf>) -> Vec<Value> {
                 let i = w.idx(s["r"].as_str().unwrap());
                 w.full_sync(i).await;
             }
+            "Observe" => {
+                let i = w.idx(s["r"].as_str().unwrap());
+                if !w.nodes[i].running {
+                    observe_event(&mut w, i, b).await;
+                }
+            }
             other => panic!("unknown schedule step {other}"),
         }
     }
     w.flush(flush_rounds).await;
     // final observation of every replica
     for i in 0..w.nodes.len() {
-        let st = w.observe(i).await;
-        let post = w.db_json(&st);
-        let rid = w.nodes[i].rid.clone();
-        let rep = w.nodes[i].rep.as_mut().unwrap();
-        let nlocal = rep.num_local_operations().await.unwrap_or(usize::MAX);
-        let nundo = rep.num_undo_points().await.unwrap_or(usize::MAX);
-        // the per-task operation history (synchronised and unsynchronised), for every task token
-        let mut taskops = vec![];
-        if let Some(tasks) = b["tasks"].as_array() {
-            for t in tasks {
-                let tok = t.as_str().unwrap();
-                let u = w.ctx.borrow().model.task(tok);
-                let rep = w.nodes[i].rep.as_mut().unwrap();
-                if let Ok(ops) = rep.get_task_operations(u).await {
-                    let oj: Vec<Value> = ops
-                        .iter()
-                        .map(|o| w.ctx.borrow_mut().model.op_to_json(o))
-                        .collect();
-                    taskops.push(json!([tok, oj]));
-                }
-            }
-        }
-        w.emit(json!({"a":"Observe","r":rid,"post":post,"nlocal":nlocal,"nundo":nundo,
-            "taskops":taskops}));
+        observe_event(&mut w, i, b).await;
     }
     let lines = std::mem::take(&mut w.ctx.borrow_mut().lines);
     lines
